@@ -124,11 +124,15 @@ deriving DecidableEq, Repr
     read timeout) -/
 inductive BodyEnd where
   | eof | err
+  /-- the body goes silent: `Read` blocks until the chunk's read timer (reset on every read)
+      cancels the request with DeadlineExceeded -/
+  | stall
 deriving DecidableEq, Repr
 
 def BodyEnd.cls : BodyEnd → ErrClass
   | .eof => .eof
   | .err => .readErr
+  | .stall => .deadline
 
 /-- `io.CopyN(checkWriter, body, rem)`: every `Read` result (a piece, cut to the remaining limit)
     is hashed and written at the running offset, except that the write which would complete the
@@ -276,6 +280,12 @@ def applyTask (H : Bytes → D) (v : Variant) (st : Run D) (t : Task D) : ChunkR
       | none => { st with cache := cache.setMarker t.key, completed := st.completed + t.cs.len }
       | some e => { st with cache := cache, firstErr := orElse st.firstErr e }
 
+/-- does the chunk goroutine end up blocked in `Read` on a silent body?  (it reads the body at
+    all, and the pieces delivered before the silence do not complete the chunk) -/
+def stalls (t : Task D) : ChunkResp → Bool
+  | .body pieces .stall => !t.prevalid && decide (pieces.flatten.length < t.cs.len)
+  | _ => false
+
 /-- a move of the adversary at a quiescent point: answer the `k`-th waiting chunk request
     (launch order), or cancel the context -/
 inductive Step where
@@ -293,7 +303,13 @@ def step (H : Bytes → D) (v : Variant) (limit : Option Nat) (st : Run D) : Ste
     | none => none
     | some t =>
       let st1 := applyTask H v { st with inflight := st.inflight.eraseIdx k } t r
-      some (advance v limit st1 st1.ops)
+      -- a body that stalls keeps the registry silent for `ReadTimeout`: the requests still
+      -- waiting for their headers time out as well
+      let st2 := if stalls t r then
+          { st1 with inflight := [],
+                     firstErr := if st1.inflight.isEmpty then st1.firstErr else orElse st1.firstErr .deadline }
+        else st1
+      some (advance v limit st2 st2.ops)
   | .cancel =>
     let st1 := { st with cancelled := true, inflight := [],
                          firstErr := if st.inflight.isEmpty then st.firstErr else orElse st.firstErr .canceled }
